@@ -208,7 +208,7 @@ def run_check(pid, tier, seed, replay_path=None):
     for k in known:
         if k.get("status") == "known" and k["id"] in hits:
             print("KNOWN-FINDING: property=%s %s [%s; %d obligation(s)]" % (pid, k["summary"], k["id"], len(hits[k["id"]])))
-    rdir = os.path.join(VERIF, "replays", pid)
+    rdir = os.path.join(VERIF, "replays" if os.path.realpath(source.REPO) == "/repo" else "replays_scratch", pid)
     vio_lines = []
     if violations:
         os.makedirs(rdir, exist_ok=True)
@@ -245,7 +245,10 @@ def run_check(pid, tier, seed, replay_path=None):
         print("CHECKER-ERROR property=%s %s" % (pid, e[:1500]))
 
     # ---- evidence
-    ded = [o for o in obs if o.kind in ("deductive", "static")]
+    known_oids = set(o.oid for v in hits.values() for o in v)
+    ded_all = [o for o in obs if o.kind in ("deductive", "static")]
+    # obligations claimed = those generated minus the ones that ARE a listed known finding (reported separately)
+    ded = [o for o in ded_all if o.oid not in known_oids]
     n_ob = len(ded)
     n_dis = len([o for o in ded if o.status == "discharged"])
     backends = {}
@@ -260,7 +263,9 @@ def run_check(pid, tier, seed, replay_path=None):
         "coverage": {
             "explanation": plan.explanation,
             "obligations": n_ob, "discharged": n_dis,
+            "obligations_generated": len(ded_all),
             "refuted_known_findings": sum(len(v) for v in hits.values()),
+            "known_finding_obligations": sorted(known_oids)[:40],
             "refuted_new": len([o for o in violations if o.kind != "bounded"]),
             "undecided": len(undecided),
             "checker_cmd": "bin/check %s --tier %s" % (pid, tier),
@@ -287,8 +292,10 @@ def run_check(pid, tier, seed, replay_path=None):
         "wall_s": round(time.time() - t0, 2),
         "violations": len(violations),
     }
-    os.makedirs(os.path.join(VERIF, "evidence"), exist_ok=True)
-    with open(os.path.join(VERIF, "evidence", "%s.json" % pid), "w") as f:
+    # evidence describes /repo itself; a run against another tree (scratch copy of a seeded change) must not overwrite it
+    evdir = os.path.join(VERIF, "evidence" if os.path.realpath(source.REPO) == "/repo" else "evidence_scratch")
+    os.makedirs(evdir, exist_ok=True)
+    with open(os.path.join(evdir, "%s.json" % pid), "w") as f:
         json.dump(ev, f, indent=1, default=str)
     print("%s tier=%s: %d obligations, %d discharged, %d known-finding, %d new refuted, %d undecided, %d units, %d paths, "
           "crosscheck %d paths, %.1fs" % (pid, tier, n_ob, n_dis, ev["coverage"]["refuted_known_findings"],
